@@ -189,12 +189,13 @@ def search_c20(tier="quick"):
     _quiet()
     n = 0
     cfg = {"alpha": {"command": "alpha-bin", "args": ["--x", "1"], "env": {"K": "V"}},
+           "epsilon": {"command": "eps", "args": ["--label", "", "a b", "\"q\"", "--", "caf\u00e9", "0"], "env": {}},
            "beta": {"command": "beta-bin"},
            "gamma": {"command": "/opt/g/gamma", "args": [], "timeout": "2.5"},
            "delta": {"command": "python3", "args": ["-c", "pass  # a bare name that IS on the host PATH"], "env": {"PATH": "/nonexistent/venv/bin"}},
            "broken": {"args": ["no-command"]}}
     name_lists = [["alpha"], ["beta"], ["gamma"], ["alpha", "beta"], ["alpha", "nope", "beta"], ["nope", "alpha"], ["alpha", "broken", "gamma"],
-                  ["nope"], ["beta", "beta"], ["delta"], ["delta", "alpha"]]
+                  ["nope"], ["beta", "beta"], ["delta"], ["delta", "alpha"], ["epsilon"], ["alpha", "epsilon"]]
     for names in name_lists:
         n += 1
         try:
@@ -226,7 +227,7 @@ def search_c20(tier="quick"):
     if [s["argv"] for s in spawns] != [["beta-bin"]]:
         return dict(reproduced=True, input=dict(server_names=["alpha", "beta"], not_on_path="alpha-bin"),
                     observed=f"spawned {[s['argv'] for s in spawns]}", required="only beta-bin (alpha's spawn fails, nothing is substituted)")
-    return dict(reproduced=False, cases=n, bound=f"{len(name_lists)} server-name lists over a 5-entry config, one spawn failure (bounded, not a proof)")
+    return dict(reproduced=False, cases=n, bound=f"{len(name_lists)} server-name lists over a 6-entry config, one spawn failure (bounded, not a proof)")
 
 
 REGISTRY = {"C03.": search_c03, "C20.": search_c20}
